@@ -209,4 +209,9 @@ class TheCheck(SeqCheck):
         sts.append(Stream("grow-long-addstrf", pack(self.gen_grow_long()), history=True,
                           note="addstrf with formatted lengths 1000..1025, 2040..2050, 4090..4100, 5000, 10000"))
         sts.append(Stream("random-list", pack(self.gen_random_list(100 if quick else 1500, 120)), history=True))
+        if not quick:
+            # total byte sizes of exactly 2^31 and beyond (size_t arithmetic in toarray / datasize)
+            sts.append(Stream("huge", ["hugeseq 2048 1048576", "hugeseq 2049 1048576", "hugeseq 4097 1048576"], history=False, nomodel=True,
+                              note="self-checking passes of the harness over a list and a grow buffer holding 2^31, 2^31+2^20 and 2^32+2^20 "
+                                   "bytes: size, datasize, toarray (size and bytes), getnext walk"))
         return sts
